@@ -20,10 +20,14 @@ def read_config(root: str) -> dict:
         return json.load(fh)
 
 
-def index_rows(root: str, immutable: bool = False) -> list[Row]:
-    """All rows of db_object (a fresh read-only connection: sees everything committed)."""
+def index_rows(root: str, immutable: bool = False, recover: bool = False) -> list[Row]:
+    """All rows of db_object (a fresh read-only connection: sees everything committed).
+
+    ``recover=True`` opens read-write, so that a WAL left behind by a killed process is recovered exactly
+    as the next real client would recover it (post-mortem use).
+    """
     path = os.path.join(root, 'packs.idx')
-    uri = f'file:{path}?mode=ro' + ('&immutable=1' if immutable else '')
+    uri = f'file:{path}?mode={"rw" if recover else "ro"}' + ('&immutable=1' if immutable else '')
     con = sqlite3.connect(uri, uri=True, timeout=30)
     try:
         cur = con.execute('SELECT id, hashkey, pack_id, offset, length, compressed, size FROM db_object ORDER BY id')
@@ -107,11 +111,11 @@ def hexdigest(hash_type: str, data: bytes) -> str:
 class Snapshot:
     """Everything the raw reader can see of a container at one instant."""
 
-    def __init__(self, root: str):
+    def __init__(self, root: str, recover: bool = False):
         self.root = root
         self.config = read_config(root)
         self.hash_type = self.config['hash_type']
-        self.rows = index_rows(root)
+        self.rows = index_rows(root, recover=recover)
         self.loose = loose_keys(root, self.config['loose_prefix_len'])
         self.packs = pack_files(root)
 
